@@ -66,10 +66,13 @@ func runWorld(t *rapid.T, prop string) {
 		gen.TwoFaced = true
 		gen.MinPathLen = 1
 	}
-	if profile == "gate" || profile == "laggard" {
+	if profile == "gate" || profile == "laggard" || profile == "hijack" {
 		// the gate schedule splits proposals best when the inputs themselves agree
 		gen.MinPathLen = 1
 		gen.Unanimous = rapid.Bool().Draw(t, "gateunanimous")
+	}
+	if profile == "hijack" {
+		gen.ForceByzIfAble = true
 	}
 	cfg := vnet.GenConfig(t, gen)
 	var fails []failure
@@ -173,6 +176,8 @@ func runWorld(t *rapid.T, prop string) {
 		fmt.Sprintf("skip-round>0:%v", w.Stats.SkipsRound > 0),
 		fmt.Sprintf("rebroadcast>0:%v", w.Stats.Rebroadcasts > 0),
 		fmt.Sprintf("dropped>0:%v", w.Stats.Dropped > 0),
+		fmt.Sprintf("hijack-converge:%v/commit:%v", w.Stats.HijackConverges > 0, w.Stats.HijackCommits > 0),
+		fmt.Sprintf("forged-flood>0:%v", w.Stats.ForgedFloods > 0),
 	}
 	if unanimous {
 		labels = append(labels, "unanimous-mode")
